@@ -20,6 +20,8 @@ func (ex *Exec) newError(st *State) *IfaceV {
 	return &IfaceV{Tag: ex.eng.errTag(), Data: st.FreshRegion()}
 }
 
+var sortCounter int
+
 func init() {
 	newErr := func(ex *Exec, fr *Frame, in ssa.Instruction, fn *ssa.Function, args []Value, st *State, cont callCont) {
 		cont(st, fr, ex.newError(st))
@@ -185,8 +187,20 @@ func init() {
 		// old ones is not modelled; nothing proved so far depends on it)
 		x := args[0].(*SliceV)
 		ex.checkFrameRange(st, in, x, x.Len)
+		old := st.Clone()
 		ex.havocRange(st, types.Typ[types.Int], x)
-		ex.intrUsed["sort.Ints (elements havocked: permutation / order not modelled)"] = true
+		// every element afterwards is an element from before (new[k] == old[perm(k)] for an unknown index
+		// function perm), and the result is ascending. That perm is a bijection is not modelled.
+		sortCounter++
+		k := BoundVar(fmt.Sprintf("k$sort%d", sortCounter), BV(64))
+		k2 := BoundVar(fmt.Sprintf("j$sort%d", sortCounter), BV(64))
+		perm := App(fmt.Sprintf("sortperm%d", sortCounter), BV(64), k)
+		newE := st.loadScalar(BV(64), x.ElemAddr(k))
+		newE2 := st.loadScalar(BV(64), x.ElemAddr(k2))
+		oldE := old.loadScalar(BV(64), x.ElemAddr(perm))
+		st.Assume(ForallPat([]*Term{k}, Implies(BVCmp("bvult", k, x.Len), And(BVCmp("bvult", perm, x.Len), Eq(newE, oldE))), newE))
+		st.Assume(Forall([]*Term{k, k2}, Implies(And(BVCmp("bvult", k, k2), BVCmp("bvult", k2, x.Len)), BVCmp("bvsle", newE, newE2))))
+		ex.intrUsed["sort.Ints (result: ascending, every element is one of the old elements; bijection not modelled)"] = true
 		cont(st, fr, nil)
 	}
 	intrinsics["bytes.TrimPrefix"] = func(ex *Exec, fr *Frame, in ssa.Instruction, fn *ssa.Function, args []Value, st *State, cont callCont) {
